@@ -74,6 +74,20 @@ func c13Slots() []c13Program {
 		add("extend-then-"+f, false, false, func(e string) string { return "T | extend x = " + e + " | " + f })
 		add(f+"-then-sort", false, false, func(e string) string { return "T | " + f + " | sort by " + e })
 	}
+	// every expression-carrying operator as the LAST operator of a join's right-hand side (and nested, and after others)
+	for _, rs := range []struct{ name, pre, post string }{
+		{"sort", "sort by ", ""}, {"sort-asc", "sort by b, ", " asc"}, {"top", "top 2 by ", ""}, {"where", "where ", ""},
+		{"extend", "extend z = ", ""}, {"project", "project k, z = ", ""}, {"summarize", "summarize n = max(", ") by k"}, {"summarize-key", "summarize count() by k, j = ", ""},
+	} {
+		rs := rs
+		add("right-side-last-"+rs.name, false, false, func(e string) string { return "T | join (R | " + rs.pre + e + rs.post + ") on k" })
+		add("right-side-after-where-"+rs.name, false, false, func(e string) string {
+			return "T | where a | join kind=leftouter (R | where y > 1 | " + rs.pre + e + rs.post + ") on k | count"
+		})
+		add("nested-right-side-last-"+rs.name, false, false, func(e string) string {
+			return "T | join (R | join kind=inner (C | " + rs.pre + e + rs.post + ") on k) on k"
+		})
+	}
 	add("let-value", false, true, func(e string) string { return "let v = " + e + "; T | take 5" })
 	add("let-value-second", false, true, func(e string) string { return "let u = 1; let v = u + " + e + "; T | where a > v" })
 	return out
@@ -260,7 +274,12 @@ func c13Main(r *run.Runner) {
 		}
 		mustCompile(w, src, "corpus")
 	})
-	r.Extra["bounds"] = map[string]any{"token_sequences": b1, "corruptions": b2, "slots": len(slots), "wrappers": len(c13Wrappers(false)), "corpus_programs": len(corpus)}
+	scale := scalePrograms()
+	r.Sweep("scale-compiles", int64(len(scale)), func(w *run.Worker, item int64) {
+		pr := gen.Print(scale[item])
+		mustCompile(w, pr.Layout(pr.Uniform(" ")).Source, "scale")
+	})
+	r.Extra["bounds"] = map[string]any{"scale_programs": len(scale), "token_sequences": b1, "corruptions": b2, "slots": len(slots), "wrappers": len(c13Wrappers(false)), "corpus_programs": len(corpus)}
 	r.Sample(slots[11].build(c13Wrappers(false)[4](callText("iff", 2))))
 	r.Sample(slots[13].build(c13Wrappers(true)[6]("`a`")))
 }
